@@ -69,7 +69,8 @@ def hygiene():
     return problems
 
 def coq_build():
-    if not os.path.exists(os.path.join(COQ, 'Makefile')):
+    mk, cp = os.path.join(COQ, 'Makefile'), os.path.join(COQ, '_CoqProject')
+    if not os.path.exists(mk) or os.path.getmtime(cp) > os.path.getmtime(mk):
         rc, out = sh('coq_makefile -f _CoqProject -o Makefile', cwd=COQ)
         if rc != 0: raise Broken('coq_makefile failed: ' + out[-500:])
     rc, out = sh('timeout 3000 make -j16', cwd=COQ, timeout=3100)
